@@ -300,8 +300,8 @@ func runC17(c *Ctx) {
 				}
 				li := p.Index(0, func(ev *Ev) bool { return ev.Label == "call:(*sync.Mutex).Lock" && ev.Field == fMu })
 				ui := p.Index(li+1, func(ev *Ev) bool { return ev.Label == "call:(*sync.Mutex).Unlock" && ev.Field == fMu })
-				cfgArg := di >= 0 && len(p.Trace[di].Args) == 2 && p.Trace[di].Args[1].V == ssa.Value(Load.Params[1])
-				stored := si >= 0 && p.Trace[si].Args[1].V == ssa.Value(Load.Params[1])
+				cfgArg := di >= 0 && len(p.Trace[di].Args) == 2 && p.Trace[di].Args[1].V == ssa.Value(param(Load, 1))
+				stored := si >= 0 && p.Trace[si].Args[1].V == ssa.Value(param(Load, 1))
 				ok := rc == "nil" && li >= 0 && li < di && di < si && si < ui && cfgArg && stored &&
 					p.Count(func(ev *Ev) bool { return ev.Label == "call:(*sync.Mutex).Lock" }) == 1
 				c.Check(ok, "C17.gate", fnName(Load), sc.name, P.Pos(Load.Pos()), fmt.Sprintf("lock@%d diff@%d store@%d unlock@%d returns %s; path: %s", li, di, si, ui, rc, p.String()))
